@@ -7,6 +7,8 @@ from __future__ import annotations
 
 import z3
 
+from . import seqs as Q
+
 from .engine import _m
 from .ty import *      # noqa
 from .values import *  # noqa
@@ -85,8 +87,8 @@ def handle_method(E, h, name, args, kw, st, node):
         else:
             from .builtins_ import seq_of
             lines = E.coerce(seq_of(E, args[0], st), TList(STR), st)
-            s = E.uf("str_join", [S, z3.SeqSort(S)], S)(z3.StringVal(""), lines.t)
-        new = utf8(E)(z3.Concat(decode(E)(cur), s))
+            s = E.uf("str_join", [S, Q.list_sort(S)], S)(z3.StringVal(""), lines.t)
+        new = utf8(E)(Q.Concat(decode(E)(cur), s))
         st.ghost["fs"] = SVal(z3.Store(fs.t, h.path.t, new), fs.ty)
         yield st, SVal(None, NONE)
     elif name in ("read", "readlines"):
@@ -98,7 +100,7 @@ def handle_method(E, h, name, args, kw, st, node):
         if name == "read":
             yield st, SVal(text, STR)
         else:
-            yield st, SVal(E.uf("splitlines_ke", [S], z3.SeqSort(S))(text), TList(STR))
+            yield st, SVal(E.uf("splitlines_ke", [S], Q.list_sort(S))(text), TList(STR))
     elif name == "seek":
         yield st, SVal(None, NONE)
     else:
